@@ -246,7 +246,10 @@ class Ctx(object):
         return acc
 
     def binding_demo(self, module, cfg, trace, corrupt, limit=40):
-        """Corrupt one record of a prefix of an accepted trace; the trace spec must reject exactly there."""
+        """Corrupt one record of a prefix of an accepted trace; the trace spec must reject exactly there.
+        Skipped when violations were already found (the trace may then not be an accepted one)."""
+        if self.violations or self.known_hits:
+            return
         bad = [dict(r) for r in trace[:limit]]
         for k, r in enumerate(bad):
             c = corrupt(r)
